@@ -277,7 +277,13 @@ def _status_of(e):
 async def _scenario(loop, sc):
     import aioftp
 
-    wd = W.World(loop, [W.UserSpec(None, None)], backend=sc["rbackend"])
+    if sc.get("peer") is not None:
+        # the peer is not aioftp: a scripted server with another spelling of replies and listings (harness/foreign.py)
+        import foreign
+
+        wd = foreign.ForeignWorld(loop, dict(sc["peer"], mlsd=sc["mlsx"], mlst=sc["mlsx"]))
+    else:
+        wd = W.World(loop, [W.UserSpec(None, None)], backend=sc["rbackend"])
     seg = sc.get("segment")
     if seg:
         # the network delivers the data in pieces of at most `seg` bytes: a read() returns less than it asked for
@@ -288,7 +294,7 @@ async def _scenario(loop, sc):
     old_cwd = None
     out = []
     try:
-        if not sc["mlsx"]:
+        if not sc["mlsx"] and sc.get("peer") is None:
             wd.server.commands_mapping.pop("mlst")
             wd.server.commands_mapping.pop("mlsd")
         wd.set_tree([(tuple(p), None if c is None else bytes.fromhex(c)) for p, c in sc["remote"]])
@@ -384,7 +390,9 @@ async def _scenario(loop, sc):
 
 
 def run_scenario(sc):
-    return simnet.run(_scenario, sc)
+    # (a scenario needs about a second; one that never ends - a recursive listing that finds the directory inside
+    # itself - is ended by the wall-clock watchdog and reported)
+    return simnet.run(_scenario, sc, wall_limit=float(os.environ.get("VERIF_C09_WALL_LIMIT", "15")))
 
 
 def _worker(sc):
@@ -400,7 +408,7 @@ def run_many(scs):
         return [_worker(s) for s in scs]
     mp = multiprocessing.get_context("fork")
     with mp.Pool(procs) as pool:
-        return pool.map(_worker, scs, chunksize=max(1, len(scs) // (procs * 8)))
+        return pool.map(_worker, scs, chunksize=1)  # (one at a time: scenarios that run into the watchdog sit next to each other)
 
 
 # ------------------------------------------------------------------------------------------------
@@ -611,6 +619,16 @@ def malformed_scenarios():
     return out
 
 
+FOREIGN_PEERS = [
+    ({"dots": True}, (True, False)),
+    ({"old_date": "one-blank"}, (False,)),
+    ({"list_style": "windows"}, (False,)),
+    ({"multiline": "mixed"}, (True, False)),
+    ({"multiline": "hyph", "epsv": False, "refusal": "500"}, (True, False)),
+    ({"multiline": "digits", "dots": True, "old_date": "one-blank", "refusal": "504"}, (True, False)),
+]
+
+
 def gen_scenarios(ctx, search=False):
     rng = ctx.rng
     scs = []
@@ -713,6 +731,19 @@ def gen_scenarios(ctx, search=False):
         for m in (True, False):
             scs.append(make_scenario(dotted, dotted, "d", True, "/", m, BLOCKS[n % 3], "", False, variant=n - n % 10, rbackend=rb, lbackend=lb))
             n += 1
+    # (9) the peer is NOT aioftp: the same four operations against a scripted server that spells its replies and
+    #     listings the way other servers do - MLSD with the `cdir`/`pdir` entries, `ls -la` with the '.' and '..' lines,
+    #     the one-blank date of old entries ("Jan 03 2018"), the IIS `dir` format, multi-line replies of every legal
+    #     shape, PASV only.  The truth is the scripted server's own tree.
+    same = ("D", {"x": ("D", {"x": ("D", {}), "f": ("F", b"xf")}), "e": ("D", {}), "1": ("F", b"one"), "dd": ("D", {"dd": ("D", {"dd": ("F", b"3")})})})
+    for pj, (peer, ms) in enumerate(FOREIGN_PEERS):
+        for j, node in enumerate([same] + FIXED[:3] + small_dirs[:2]):
+            for m in ms:
+                for d, wi in ((("d", True), ("", False)) if j else (("d", True), ("", False), ("x", True), ("d1/d2", False))):
+                    sc = make_scenario(node, node, d, wi, ["/", "/w"][(pj + j) % 2], m, BLOCKS[n % 3], "", False, variant=n - n % 10 + 2 * (j % 5))
+                    sc["peer"] = peer
+                    scs.append(sc)
+                    n += 1
     # destination collisions that must merge / not collide: dest 'd' while the source contains 'd', etc. are in FIXED
     if not search:
         scs += malformed_scenarios()
@@ -732,6 +763,7 @@ def _classify(sc, res):
     res.count("cwd=%s" % sc["rcwd"])
     res.count("server=%s" % ("mlsd" if sc["mlsx"] else "list-fallback"))
     res.count("backends=%s/%s" % (sc["rbackend"], sc["lbackend"]))
+    res.count("peer=%s" % ("aioftp" if sc.get("peer") is None else "foreign:" + ",".join("%s=%s" % kv for kv in sorted(sc["peer"].items()))))
     res.count("block=%s" % up.get("bs"))
     n_src = sum(1 for p, c in sc["local"] if p[:1] == ["src"]) - 1
     res.count("source_entries=%s" % (n_src if n_src < 8 else "8+"))
@@ -749,6 +781,9 @@ def _run(ctx, scs, compare=True):
     lines, where = [], []
     for sc, recs in zip(scs, outs):
         res.cases += 1
+        if isinstance(recs, str) and recs.startswith("HARNESS-ERROR WallClockExceeded") and not sc.get("malformed"):
+            res.oracle_failures.append({"input": {"scenario": sc}, "what": "the operations of this scenario never came to an end (%s)" % recs, "signature": "C09:operation-never-ends"})
+            continue
         if isinstance(recs, str):
             res.disagreements.append({"correspondence": "harness", "input": sc["ops"], "impl": recs, "model": None})
             continue
@@ -763,7 +798,7 @@ def _run(ctx, scs, compare=True):
             f = oracle_op(sc, op, rec)
             if f:
                 res.oracle_failures.append(f)
-            if compare:
+            if compare and sc.get("peer") is None:  # (the model's other half is aioftp's server)
                 lines.append(model_line(sc, op, rec))
                 where.append((sc, op, rec))
     if compare and ctx.model_ok and lines:
@@ -799,7 +834,10 @@ def search(ctx, prior):
 
 
 def _replay_failures(sc):
-    recs = run_scenario(sc)
+    try:
+        recs = run_scenario(sc)
+    except simnet.WallClockExceeded as e:
+        return [], [{"signature": "C09:operation-never-ends", "what": "the operations of this scenario never came to an end (%s)" % e}]
     fails = []
     for op, rec in zip(sc["ops"], recs):
         f = oracle_op(sc, op, rec)
